@@ -65,9 +65,13 @@ def run_property(pid: str, tier: str, seed: int) -> int:
             violations.append({"kind": "data", "name": d.name, "detail": detail, "input": None})
 
     # ------------------------------------------------------------- P: proof obligations
+    # generated and solved per contract in child processes of this (z3-free) process: see vf/pyvc/driver.py
+    from vf.pyvc.driver import run_jobs, as_oblig
     all_obs = []
+    res = []
     functions = []
     assumptions = set()
+    jobs = []
     for c in cs:
         if c.inline or c.module.startswith("<"):
             continue
@@ -76,37 +80,33 @@ def run_property(pid: str, tier: str, seed: int) -> int:
             continue
         if not c.verify:
             continue
-        try:
-            ex = Exec(R, c)
-            obs = ex.generate()
-            fn = ex.mod.func(c.func)
-            functions.append({"function": c.qual, "sha256": ex.mod.sha(fn), "obligations": len(obs), "lines": [fn.lineno, fn.end_lineno],
-                              "callees": sorted(ex.callees_used), "notes": sorted(set(ex.notes))[:6]})
-            for t in ex.trusted_used:
-                assumptions.add("trusted callee contract " + t)
-            all_obs.extend(obs)
-        except Unsupported as e:
-            functions.append({"function": c.qual, "unsupported": str(e)})
-            undecided.append(f"{c.qual}: outside the modelled subset ({e})")
-        except KeyError as e:
-            functions.append({"function": c.qual, "missing": str(e)})
-            undecided.append(f"{c.qual}: contract target missing ({e})")
-        except Exception as e:  # engine crash on this function: undecided, never a violation
-            functions.append({"function": c.qual, "engine_error": repr(e)})
-            undecided.append(f"{c.qual}: engine error {e!r}")
-            if os.environ.get("VF_DEBUG"):
-                traceback.print_exc()
+        jobs.append(("contract", c.key))
     for l in ls:
-        try:
-            obs, ex = generate_lemma(R, l)
-            all_obs.extend(obs)
-            functions.append({"function": f"lemma.{l.name}", "obligations": len(obs)})
-        except Unsupported as e:
-            undecided.append(f"lemma.{l.name}: {e}")
+        jobs.append(("lemma", l.name))
     hints = ledger.get("hints", {})
-    for o in all_obs:
-        o.hint = hints.get(o.name)
-    res = discharge(all_obs)
+    for (kind, key), out in zip(jobs, run_jobs(R, jobs, hints)):
+        qual = R.contracts[key].qual if kind == "contract" else f"lemma.{key}"
+        if "unsupported" in out:
+            functions.append({"function": qual, "unsupported": out["unsupported"]})
+            undecided.append(f"{qual}: outside the modelled subset ({out['unsupported']})")
+            continue
+        if "missing" in out:
+            functions.append({"function": qual, "missing": out["missing"]})
+            undecided.append(f"{qual}: contract target missing ({out['missing']})")
+            continue
+        if "engine_error" in out:
+            functions.append({"function": qual, "engine_error": out["engine_error"]})
+            undecided.append(f"{qual}: engine error {out['engine_error']}")
+            continue
+        if kind == "contract":
+            functions.append({"function": qual, "sha256": out["sha256"], "obligations": len(out["obligs"]), "lines": out["lines"],
+                              "callees": out["callees"], "notes": out["notes"]})
+            for t in out["trusted_used"]:
+                assumptions.add("trusted callee contract " + t)
+        else:
+            functions.append({"function": qual, "obligations": len(out["obligs"])})
+        all_obs.extend(as_oblig(d) for d in out["obligs"])
+        res.extend(out["results"])
     classes: Dict[str, Dict[str, Any]] = {}
     by_backend: Dict[str, int] = defaultdict(int)
     solver_s = 0.0
@@ -115,9 +115,9 @@ def run_property(pid: str, tier: str, seed: int) -> int:
         cl["instances"] += 1
         cl["verdicts"][r["verdict"]] += 1
         solver_s += r["time"]
-        by_backend[re.sub(r" cfg\d+( slow)?", "", r["solver"] or "none")] += 1
+        by_backend[re.sub(r" cfg\d+( slow)?| \(second pass\)| rel\d| qf$", "", r["solver"] or "none")] += 1
         if not o.expect_sat and r["verdict"] != "unsat":
-            cl["bad"].append({"line": o.line, "verdict": r["verdict"], "reason": r["reason"][:300], "model": r.get("model"), "text": o.text})
+            cl["bad"].append({"line": o.line, "path": o.path, "verdict": r["verdict"], "solver_s": round(r["time"], 1), "reason": r["reason"][:300], "model": r.get("model"), "text": o.text})
     proved, failed, dead_cover = [], [], []
     for name, cl in classes.items():
         if cl["cover"]:
@@ -276,22 +276,19 @@ def write_ledger(pids):
     os.makedirs(os.path.join(HERE, "ledger"), exist_ok=True)
     for pid in pids:
         cs, ls, ds = R.for_property(pid)
-        obs = []
-        fns = {}
-        for c in cs:
-            if c.inline or c.trusted or c.module.startswith("<") or not c.verify:
+        from vf.pyvc.driver import run_jobs, as_oblig
+        obs, res, fns = [], [], {}
+        jobs = [("contract", c.key) for c in cs if not (c.inline or c.trusted or c.module.startswith("<") or not c.verify)]
+        jobs += [("lemma", l.name) for l in ls]
+        for (kind, key), out in zip(jobs, run_jobs(R, jobs, {})):
+            qual = R.contracts[key].qual if kind == "contract" else f"lemma.{key}"
+            if "obligs" not in out:
+                print(f"  {pid}: {qual} not generated: {out.get('unsupported') or out.get('missing') or out.get('engine_error')}")
                 continue
-            try:
-                ex = Exec(R, c)
-                o = ex.generate()
-                fns[c.qual] = ex.mod.sha(ex.mod.func(c.func))
-                obs.extend(o)
-            except Unsupported as e:
-                print(f"  {pid}: {c.qual} unsupported: {e}")
-        for l in ls:
-            o, _ = generate_lemma(R, l)
-            obs.extend(o)
-        res = discharge(obs)
+            if kind == "contract":
+                fns[qual] = out["sha256"]
+            obs.extend(as_oblig(d) for d in out["obligs"])
+            res.extend(out["results"])
         ok, covers = set(), set()
         bad = set()
         hints = {}
@@ -304,22 +301,16 @@ def write_ledger(pids):
             (ok if r["verdict"] == "unsat" else bad).add(o.name)
             if r["verdict"] != "unsat":
                 print(f"  not discharged: {o.name} path {o.path} line {o.line}: {r['verdict']} after {r['time']:.1f}s ({r['reason'][:160]})")
-            if r["verdict"] == "unsat" and (r["solver"] or "").startswith("cvc5"):
+            if r["verdict"] == "unsat" and ((r["solver"] or "").startswith("cvc5") or r.get("prefer") == "cvc5"):
                 hints[o.name] = "cvc5"
+            elif r["verdict"] == "unsat" and " rel" in (r["solver"] or "") and r["time"] > 1.0 and o.name not in hints:
+                hints[o.name] = "rel" + (r["solver"].split(" rel")[1][:1])
             elif r["verdict"] == "unsat" and " cfg" in (r["solver"] or "") and hints.get(o.name) != "cvc5":
                 sv = r["solver"]
                 ci = int(sv.split(" cfg")[1].split()[0])
                 if (ci != 0 or sv.endswith("slow")) and (o.name not in hints or r["time"] > slowest.get(o.name, 0)):
                     hints[o.name] = f"z3:cfg{ci}"
                     slowest[o.name] = r["time"]
-        # classes that z3 only discharged slowly: if cvc5 does it faster, remember cvc5 instead
-        from vf.pyvc.solve import _external
-        for o, r in zip(obs, res):
-            if not o.expect_sat and r["verdict"] == "unsat" and r["time"] > 5.0 and hints.get(o.name, "").startswith("z3:"):
-                t1 = time.time()
-                ext = _external(o, only="cvc5")
-                if ext is not None and ext[0] == "unsat" and time.time() - t1 < 0.5 * r["time"]:
-                    hints[o.name] = "cvc5"
         ok -= bad
         json.dump({"classes": sorted(ok), "covers": sorted(covers), "functions": fns, "hints": hints}, open(os.path.join(HERE, "ledger", f"{pid}.json"), "w"), indent=1)
         print(f"{pid}: {len(ok)} classes in ledger, {len(bad)} not discharged: {sorted(bad)[:8]}")
